@@ -48,7 +48,10 @@ fn gen_pssm(rng: &mut impl Rng, m: usize, kind: usize) -> Vec<Vec<i64>> {
                     _ => [0i64, 1, 2, 3][rng.gen_range(0..4)],                               // near-ties after 8-bit rounding
                 })
                 .collect();
-            row.push(if kind % 7 == 6 { rng.gen_range(-10..=0) } else { NINF });
+            // wildcard column: -inf (what count data gives), or finite: low, neutral (0), or just below the row maximum
+            // (then a window holding an N can be the best site, and its 8-bit score depends on the discretised N cell)
+            let rmax = row.iter().cloned().filter(|&x| x != NINF).max().unwrap_or(0);
+            row.push(if kind % 7 == 6 || kind % 9 == 4 { match rng.gen_range(0..3) { 0 => rng.gen_range(-10..=0), 1 => 0, _ => rmax - 1 } } else { NINF });
             row
         })
         .collect()
@@ -68,6 +71,7 @@ fn gen_seq(rng: &mut impl Rng, l: usize, pssm: &[Vec<i64>], kind: usize, plant: 
             let p = rng.gen_range(0..=l - m);
             let mut w = cons.clone();
             if rng.gen_bool(0.6) { let j = rng.gen_range(0..m); w[j] = rng.gen_range(0..KK - 1); }
+            if pssm[0][KK - 1] != NINF && rng.gen_bool(0.6) { let j = rng.gen_range(0..m); w[j] = KK - 1; }   // a near-consensus site holding an N
             s[p..p + m].copy_from_slice(&w);
         }
     }
@@ -170,7 +174,10 @@ pub fn history(rec: &mut Recorder, inp: &Input, arm: Arm, bs: usize, k_next: Opt
     }
     if k_next.is_some() {
         let _ = exhausted;
-        let r = guarded(move || scanner.max());
+        // "asking a scanner for its best hit": the by-value Scanner::max, or - tag *_by_ref - the maximum taken over a
+        // borrowed scanner (`scanner.by_ref().max()`, the provided Iterator::max over next() with `Ord for Hit`)
+        let by_ref = tag.ends_with("by_ref");
+        let r = guarded(move || if by_ref { scanner.by_ref().max() } else { scanner.max() });
         match r {
             Ok(Some(h)) => rec.emit(json!({"ev":"max","ret":"hit","pos":h.position(),"score":grid(h.score(), GS)})),
             Ok(None) => rec.emit(json!({"ev":"max","ret":"none"})),
@@ -212,6 +219,7 @@ fn big_shapes(thorough: bool, rng: &mut impl Rng) -> Vec<(usize, usize, usize)> 
 
 pub fn record_c02(rec: &mut Recorder, seed: u64, thorough: bool) {
     let mut r = rng(seed, 2);
+    wildcard_sites(rec, &mut r, thorough, None);
     let mut kind = 0;
     for (l, m, bs) in shapes(thorough, &mut r).into_iter().chain(big_shapes(thorough, &mut r)) {
         for _ in 0..(if l <= 64 { 2 } else { 1 }) {
@@ -250,7 +258,52 @@ fn many_pending(rec: &mut Recorder, r: &mut impl Rng, thorough: bool) {
         let bs = [1usize, 2, 4, 16, 256][it % 5];
         let k = 1 + it % 3;
         history(rec, &inp, Arm::Avx2, bs, Some(k), it % 2 == 0, "max_many_pending");
-        if it % 2 == 0 { history(rec, &inp, Arm::Avx2, [3usize, 256][it % 2], Some(k + 2), false, "max_many_pending"); }
+        if it % 2 == 0 { history(rec, &inp, Arm::Avx2, [3usize, 256][it % 2], Some(k + 2), false, if it % 4 == 0 { "max_many_pending_by_ref" } else { "max_many_pending" }); }
+    }
+}
+
+/// Matrices whose wildcard column is finite - neutral (0) where the other scores are mostly negative, or just below the
+/// row maximum - and sequences whose best sites hold an N: the 8-bit pre-filter then depends on the discretised N cells.
+/// `k_mode`: None = iterate to exhaustion (C02), Some(()) = next()^k ; max() (C03).
+fn wildcard_sites(rec: &mut Recorder, r: &mut impl Rng, thorough: bool, k_mode: Option<()>) {
+    let n = if thorough { 90 } else { 30 };
+    for it in 0..n {
+        let m = r.gen_range(3..=12);
+        let l = r.gen_range(m + 20..400);
+        let pssm: Vec<Vec<i64>> = (0..m).map(|_| {
+            let mut row: Vec<i64> = (0..4).map(|_| if r.gen_bool(0.25) { r.gen_range(4..=12) } else { r.gen_range(-30..=-6) }).collect();
+            let rmax = *row.iter().max().unwrap();
+            row.push(match it % 3 { 0 => 0, 1 => rmax - 1, _ => r.gen_range(-4..=2) });
+            row
+        }).collect();
+        let cons: Vec<usize> = pssm.iter().map(|row| row[..4].iter().enumerate().max_by_key(|x| *x.1).unwrap().0).collect();
+        let mut ranks = random_ranks::<A>(r, l, 0.02);
+        // several consensus sites, each with one to three positions replaced by N, in different rows / columns of the striped layout
+        for _ in 0..r.gen_range(2..6) {
+            let p = r.gen_range(0..=l - m);
+            let mut w = cons.clone();
+            for _ in 0..r.gen_range(1..=3) { let j = r.gen_range(0..m); w[j] = KK - 1; }
+            ranks[p..p + m].copy_from_slice(&w);
+        }
+        let mut scores: Vec<i64> = window_scores(&pssm, &ranks).into_iter().filter(|&x| x != NINF).collect();
+        scores.sort();
+        if scores.is_empty() { continue; }
+        let (thr, thr_kind) = match it % 4 {
+            0 => (scores[scores.len() - 1], "exactly_best"),
+            1 => (scores[scores.len() * 9 / 10], "quantile_90"),
+            2 => (scores[scores.len() - 1] - 3, "just_below_best"),
+            _ => (scores[scores.len() * 3 / 4], "quantile_75"),
+        };
+        let inp = Input { ranks, pssm, thr, thr_kind };
+        let bs = [1usize, 2, 5, 256][it % 4];
+        match k_mode {
+            None => history(rec, &inp, Arm::Avx2, bs, None, it % 2 == 0, "wildcard_sites"),
+            Some(()) => {
+                history(rec, &inp, Arm::Avx2, bs, Some(it % 3), false, "max_wildcard_sites");
+                if it % 2 == 0 { history(rec, &inp, Arm::Avx2, 256, Some(0), true, "max_wildcard_sites"); }
+            }
+        }
+        rec.class("finite_wildcard_column_best_site_holds_N");
     }
 }
 
@@ -291,6 +344,7 @@ pub fn record_c03(rec: &mut Recorder, seed: u64, thorough: bool) {
     let mut r = rng(seed, 3);
     many_pending(rec, &mut r, thorough);
     saturated_near_ties(rec, &mut r, thorough);
+    wildcard_sites(rec, &mut r, thorough, Some(()));
     let mut kind = 0;
     for (l, m, bs) in shapes(thorough, &mut r).into_iter().chain(big_shapes(thorough, &mut r)) {
         kind += 1;
@@ -303,7 +357,7 @@ pub fn record_c03(rec: &mut Recorder, seed: u64, thorough: bool) {
         history(rec, &inp, arm, bs, Some(k), false, "max");
         if l < 4000 || thorough {
             history(rec, &inp, Arm::all()[(kind + 1) % 3], bs2, Some(k), kind % 3 == 0, "max");
-            history(rec, &inp, arm, bs2, Some(0), false, "max");
+            history(rec, &inp, arm, bs2, Some(0), false, if kind % 2 == 0 { "max_by_ref" } else { "max" });
         }
     }
 }
